@@ -29,6 +29,7 @@ type Options struct {
 	SolverLogDir  string
 	MaxSamples    int
 	MaxModels     int
+	Progress      bool
 }
 
 type PathSample struct {
@@ -238,12 +239,30 @@ func (w *World) Explore(fn *ssa.Function, opt Options) *Result {
 		res.Solver.Add(sol.Stats)
 		mu.Unlock()
 	}
+	progDone := make(chan struct{})
+	if opt.Progress {
+		go func() {
+			tk := time.NewTicker(15 * time.Second)
+			defer tk.Stop()
+			for {
+				select {
+				case <-progDone:
+					return
+				case <-tk.C:
+					mu.Lock()
+					fmt.Fprintf(os.Stderr, "[progress %s %.0fs] paths=%d completed=%d queue=%d active=%d viol=%d ends=%v\n", fn.Name(), time.Since(t0).Seconds(), res.Paths, res.Completed, len(work), active, len(res.Violations), res.Ends)
+					mu.Unlock()
+				}
+			}
+		}()
+	}
 	var wg sync.WaitGroup
 	for i := 0; i < opt.Workers; i++ {
 		wg.Add(1)
 		go func(id int) { defer wg.Done(); worker(id) }(i)
 	}
 	wg.Wait()
+	close(progDone)
 	if stop && len(work) > 0 {
 		res.Truncated = true
 	}
@@ -279,6 +298,11 @@ func (w *World) runPath(fn *ssa.Function, sol *Solver, prefix []Decision, opt Op
 	m := w.newMachine(tt, p)
 	m.trace = opt.Trace
 	pr.path = p
+	if opt.Progress {
+		sol.OnSlow = func(dt float64, r SatResult) {
+			fmt.Fprintf(os.Stderr, "[slow-query %.1fs %s] %s\n", dt, r, m.stackString())
+		}
+	}
 	pr.end = w.execute(m, fn)
 	pr.steps = m.steps
 	pr.maxDepth = m.maxDep
@@ -298,7 +322,7 @@ func (w *World) runPath(fn *ssa.Function, sol *Solver, prefix []Decision, opt Op
 
 func (w *World) newMachine(tt *TermTab, p *Path) *Machine {
 	m := &Machine{prog: w.Prog, world: w, globals: map[*ssa.Global]*value{}, tt: tt, path: p,
-		models: map[any]any{}, fmtMemo: map[string]value{}, clock: 1_000_000_000, inited: map[*ssa.Package]bool{}, fpMemo: map[fpKey]*Term{}}
+		models: map[any]any{}, fmtMemo: map[string]value{}, clock: 1_000_000_000, inited: map[*ssa.Package]bool{}, fpMemo: map[fpKey]*Term{}, fpOrigin: map[*Term]*Term{}}
 	m.initSched()
 	return m
 }
